@@ -160,6 +160,8 @@ Proof.
   destruct v; try discriminate.
   - destruct (String.eqb id key_id); discriminate.
   - destruct (String.eqb id key_id); [|discriminate]. destruct (Nat.eqb _ _); discriminate.
+  - destruct (lookup (fst _) registry); [|discriminate].
+    destruct (String.eqb id key_id); destruct (String.eqb (fst _) key_id); discriminate.
 Qed.
 
 (** * mapM *)
@@ -564,3 +566,525 @@ Lemma ex_small_key :
   valid (key_id, 2 ^ 255)%N /\ yaml_roundtrip [(key_id, 2 ^ 255)%N] = RErr.
 Proof. split; [apply validb_iff|]; vm_compute; reflexivity. Qed.
 Close Scope string_scope.
+
+(** * 8. base64 *)
+
+Lemma b64_val_char d : d < 64 -> b64_val (b64_char d) = Some d.
+Proof.
+  intro H. rewrite <- (N2Nat.id d).
+  assert (Hn : (N.to_nat d < 64)%nat) by lia.
+  revert Hn. generalize (N.to_nat d). intros n Hn.
+  do 64 (destruct n as [|n]; [reflexivity|]). lia.
+Qed.
+
+Lemma b64_char_not_pad d : d < 64 -> Ascii.eqb (b64_char d) b64_pad = false.
+Proof.
+  intro H. rewrite <- (N2Nat.id d).
+  assert (Hn : (N.to_nat d < 64)%nat) by lia.
+  revert Hn. generalize (N.to_nat d). intros n Hn.
+  do 64 (destruct n as [|n]; [reflexivity|]). lia.
+Qed.
+
+Lemma b64_dec_last a b c d :
+  b64_dec (String a (String b (String c (String d EmptyString)))) =
+  match b64_val a, b64_val b with
+  | Some p, Some q =>
+      if Ascii.eqb c b64_pad then
+        if Ascii.eqb d b64_pad then Some [p * 4 + q / 16] else None
+      else match b64_val c with
+           | None => None
+           | Some u =>
+               if Ascii.eqb d b64_pad then Some [p * 4 + q / 16; (q mod 16) * 16 + u / 4]
+               else match b64_val d with
+                    | None => None
+                    | Some v => Some [p * 4 + q / 16; (q mod 16) * 16 + u / 4; (u mod 4) * 64 + v]
+                    end
+           end
+  | _, _ => None
+  end.
+Proof. reflexivity. Qed.
+
+Lemma b64_dec_step a b c d c0 s0 :
+  b64_dec (String a (String b (String c (String d (String c0 s0))))) =
+  match b64_val a, b64_val b with
+  | Some p, Some q =>
+      match b64_val c, b64_val d, b64_dec (String c0 s0) with
+      | Some u, Some v, Some t =>
+          Some ((p * 4 + q / 16) :: ((q mod 16) * 16 + u / 4) :: ((u mod 4) * 64 + v) :: t)
+      | _, _, _ => None
+      end
+  | _, _ => None
+  end.
+Proof. reflexivity. Qed.
+
+Lemma b64_enc_cons w t : exists c s, b64_enc (w :: t) = String c s.
+Proof. destruct t as [|y [|z t]]; eexists; eexists; reflexivity. Qed.
+
+Lemma b64_enc_3 x y z t :
+  b64_enc (x :: y :: z :: t) =
+  String (b64_char (x / 4)) (String (b64_char ((x mod 4) * 16 + y / 16))
+  (String (b64_char ((y mod 16) * 4 + z / 64)) (String (b64_char (z mod 64)) (b64_enc t)))).
+Proof. reflexivity. Qed.
+
+Lemma b64_roundtrip_aux n : forall b, (List.length b <= n)%nat ->
+  Forall (fun x => x < 256) b -> b64_dec (b64_enc b) = Some b.
+Proof.
+  induction n as [|n IH]; intros b Hl Hb.
+  - destruct b; [reflexivity|cbn in Hl; lia].
+  - destruct b as [|x [|y [|z t]]]; [reflexivity| | |].
+    + inversion Hb as [|? ? Hx _]; subst.
+      cbn [b64_enc]. rewrite b64_dec_last.
+      rewrite !b64_val_char by lia. rewrite Ascii.eqb_refl.
+      f_equal. f_equal. lia.
+    + inversion Hb as [|? ? Hx Hb']; subst. inversion Hb' as [|? ? Hy _]; subst.
+      cbn [b64_enc]. rewrite b64_dec_last.
+      rewrite !b64_val_char by lia. rewrite b64_char_not_pad by lia. rewrite Ascii.eqb_refl.
+      f_equal. f_equal; [lia|]. f_equal. lia.
+    + inversion Hb as [|? ? Hx Hb']; subst. inversion Hb' as [|? ? Hy Hb'']; subst.
+      inversion Hb'' as [|? ? Hz Ht]; subst.
+      rewrite b64_enc_3. destruct t as [|w t].
+      * cbn [b64_enc]. rewrite b64_dec_last.
+        rewrite !b64_val_char by lia. rewrite !b64_char_not_pad by lia.
+        f_equal. f_equal; [lia|]. f_equal; [lia|]. f_equal. lia.
+      * assert (IHt : b64_dec (b64_enc (w :: t)) = Some (w :: t)).
+        { apply IH; [cbn [List.length] in *; lia|exact Ht]. }
+        destruct (b64_enc_cons w t) as [c0 [s0 E]]. rewrite E in *.
+        rewrite b64_dec_step. rewrite !b64_val_char by lia. rewrite IHt.
+        f_equal. f_equal; [lia|]. f_equal; [lia|]. f_equal. lia.
+Qed.
+
+Lemma b64_roundtrip b : Forall (fun x => x < 256) b -> b64_dec (b64_enc b) = Some b.
+Proof. apply (b64_roundtrip_aux (List.length b)). apply Nat.le_refl. Qed.
+
+Lemma b64_enc_injective a b :
+  Forall (fun x => x < 256) a -> Forall (fun x => x < 256) b -> b64_enc a = b64_enc b -> a = b.
+Proof.
+  intros Ha Hb E. apply b64_roundtrip in Ha. apply b64_roundtrip in Hb.
+  rewrite E in Ha. congruence.
+Qed.
+
+(** * 9. spellings of a hexadecimal number *)
+
+(** the upper-case form of a hexadecimal letter (other characters stay) *)
+Definition hex_upper (c : ascii) : ascii :=
+  let n := N_of_ascii c in if (97 <=? n) && (n <=? 102) then ascii_of_N (n - 32) else c.
+
+(** [respelled s s']: s' is s with any of its letters a-f written in upper case *)
+Inductive respelled : string -> string -> Prop :=
+| rs_nil : respelled EmptyString EmptyString
+| rs_same c s s' : respelled s s' -> respelled (String c s) (String c s')
+| rs_upper c s s' : respelled s s' -> respelled (String c s) (String (hex_upper c) s').
+
+Lemma respelled_refl s : respelled s s.
+Proof. induction s; constructor; assumption. Qed.
+
+Fixpoint zeros (k : nat) : string :=
+  match k with O => EmptyString | S k' => String "0"%char (zeros k') end.
+
+Lemma digit_val_upper c : digit_val (hex_upper c) = digit_val c.
+Proof. destruct c as [[] [] [] [] [] [] [] []]; vm_compute; reflexivity. Qed.
+
+Lemma is_alnum_upper c : is_alnum (hex_upper c) = is_alnum c.
+Proof. destruct c as [[] [] [] [] [] [] [] []]; vm_compute; reflexivity. Qed.
+
+Lemma of_hex_respelled s s' : respelled s s' -> forall acc, of_hex_aux s' acc = of_hex_aux s acc.
+Proof.
+  induction 1 as [|c s s' _ IH|c s s' _ IH]; intro acc; cbn [of_hex_aux]; [reflexivity| |].
+  - destruct (digit_val c); [apply IH|reflexivity].
+  - rewrite digit_val_upper. destruct (digit_val c); [apply IH|reflexivity].
+Qed.
+
+Lemma of_hex_zeros k s acc : of_hex_aux (zeros k ++ s) acc = of_hex_aux s (16 ^ N.of_nat k * acc).
+Proof.
+  revert acc. induction k as [|k IH]; intro acc.
+  - cbn [zeros append]. f_equal. change (N.of_nat 0) with 0. rewrite N.pow_0_r. lia.
+  - cbn [zeros append of_hex_aux]. change (digit_val "0") with (Some 0). cbv iota.
+    rewrite IH. f_equal. rewrite Nat2N.inj_succ, N.pow_succ_r'. lia.
+Qed.
+
+Lemma respelled_nonempty s s' : respelled s s' -> s <> EmptyString -> s' <> EmptyString.
+Proof. destruct 1; intro Hne; [congruence|discriminate|discriminate]. Qed.
+
+Lemma append_nonempty a b : b <> EmptyString -> (a ++ b)%string <> EmptyString.
+Proof. destruct a; [trivial|discriminate]. Qed.
+
+Lemma hex_any_spelling bits x k s' : x < 2 ^ bits -> respelled (to_hex x) s' ->
+  parse_hex bits (zeros k ++ s') = Some x.
+Proof.
+  intros Hx R. unfold parse_hex.
+  assert (Hne : (zeros k ++ s')%string <> EmptyString).
+  { apply append_nonempty. eapply respelled_nonempty; [exact R|apply to_hex_nonempty]. }
+  assert (Hv : of_hex_aux (zeros k ++ s') 0 = Some x).
+  { rewrite of_hex_zeros, N.mul_0_r, (of_hex_respelled _ _ R). apply of_hex_to_hex. }
+  destruct (zeros k ++ s')%string; [congruence|].
+  rewrite Hv. apply N.ltb_lt in Hx. rewrite Hx. reflexivity.
+Qed.
+
+(** the two-digits-per-byte decoder reads every spelling alike *)
+Lemma hex_to_bytes_respelled s :
+  (forall s', respelled s s' -> hex_to_bytes s' = hex_to_bytes s) /\
+  (forall c c' s', (c' = c \/ c' = hex_upper c) -> respelled s s' ->
+     hex_to_bytes (String c' s') = hex_to_bytes (String c s)).
+Proof.
+  induction s as [|a t [IHA IHB]].
+  - split.
+    + intros s' R. inversion R. reflexivity.
+    + intros c c' s' _ R. inversion R. reflexivity.
+  - split.
+    + intros s' R. inversion R; subst.
+      * apply IHB; [left; reflexivity|assumption].
+      * apply IHB; [right; reflexivity|assumption].
+    + intros c c' s' Hc R.
+      assert (Hd : digit_val c' = digit_val c).
+      { destruct Hc as [->| ->]; [reflexivity|apply digit_val_upper]. }
+      inversion R as [|? ? t' Rt|? ? t' Rt]; subst; cbn [hex_to_bytes];
+        rewrite Hd, ?digit_val_upper, (IHA _ Rt); reflexivity.
+Qed.
+
+Lemma all_alnum_respelled s s' : respelled s s' -> all_chars is_alnum s' = all_chars is_alnum s.
+Proof.
+  induction 1 as [|c s s' _ IH|c s s' _ IH]; cbn [all_chars]; [reflexivity| |].
+  - rewrite IH. reflexivity.
+  - rewrite is_alnum_upper, IH. reflexivity.
+Qed.
+
+Lemma is_alnum_hex_digit d : d < 16 -> is_alnum (hex_digit d) = true.
+Proof.
+  intro H. rewrite <- (N2Nat.id d).
+  assert (Hn : (N.to_nat d < 16)%nat) by lia.
+  revert Hn. generalize (N.to_nat d). intros n Hn.
+  do 16 (destruct n as [|n]; [reflexivity|]). lia.
+Qed.
+
+Lemma all_alnum_to_hex_aux f : forall x acc,
+  all_chars is_alnum acc = true -> all_chars is_alnum (to_hex_aux f x acc) = true.
+Proof.
+  induction f as [|f IH]; intros x acc H; cbn [to_hex_aux]; [exact H|].
+  assert (Hd : all_chars is_alnum (String (hex_digit (x mod 16)) acc) = true).
+  { cbn [all_chars]. rewrite is_alnum_hex_digit by (apply N.mod_lt; discriminate). exact H. }
+  destruct (x / 16 =? 0); [exact Hd|]. apply IH. exact Hd.
+Qed.
+
+Lemma all_alnum_to_hex x : all_chars is_alnum (to_hex x) = true.
+Proof. unfold to_hex. apply all_alnum_to_hex_aux. reflexivity. Qed.
+
+Lemma all_alnum_bytes_to_hex b : Forall (fun x => x < 256) b -> all_chars is_alnum (bytes_to_hex b) = true.
+Proof.
+  induction 1 as [|x t Hx _ IH]; [reflexivity|].
+  cbn [bytes_to_hex all_chars].
+  rewrite is_alnum_hex_digit by (apply N.div_lt_upper_bound; [discriminate|exact Hx]).
+  rewrite is_alnum_hex_digit by (apply N.mod_lt; discriminate).
+  exact IH.
+Qed.
+
+Lemma all_alnum_zeros k s : all_chars is_alnum (zeros k ++ s) = all_chars is_alnum s.
+Proof. induction k as [|k IH]; [reflexivity|]. cbn [zeros append all_chars]. rewrite IH. reflexivity. Qed.
+
+(** the hexadecimal text of a byte string, read as one number, is its big-endian value *)
+Lemma le_value_app a b : le_value (a ++ b) = le_value a + 256 ^ N.of_nat (List.length a) * le_value b.
+Proof.
+  induction a as [|x a IH].
+  - cbn [app le_value List.length]. change (N.of_nat 0) with 0. rewrite N.pow_0_r. lia.
+  - cbn [app le_value List.length]. rewrite IH, Nat2N.inj_succ, N.pow_succ_r'. lia.
+Qed.
+
+Lemma of_hex_bytes_to_hex b : Forall (fun x => x < 256) b -> forall acc,
+  of_hex_aux (bytes_to_hex b) acc = Some (256 ^ N.of_nat (List.length b) * acc + be_value b).
+Proof.
+  induction 1 as [|x t Hx Ht IH]; intro acc.
+  - cbn [bytes_to_hex of_hex_aux List.length]. unfold be_value. cbn [rev le_value].
+    change (N.of_nat 0) with 0. rewrite N.pow_0_r. f_equal. lia.
+  - cbn [bytes_to_hex of_hex_aux].
+    rewrite digit_val_hex_digit by (apply N.div_lt_upper_bound; [discriminate|exact Hx]).
+    rewrite digit_val_hex_digit by (apply N.mod_lt; discriminate).
+    rewrite IH. f_equal. unfold be_value. cbn [rev List.length]. rewrite le_value_app, rev_length.
+    cbn [le_value]. rewrite Nat2N.inj_succ, N.pow_succ_r'.
+    remember (256 ^ N.of_nat (List.length t)) as P. remember (le_value (rev t)) as V.
+    assert (E : 16 * (16 * acc + x / 16) + x mod 16 = 256 * acc + x) by lia.
+    rewrite E. lia.
+Qed.
+
+(** * 10. every textual form of a value decodes to the value it denotes *)
+
+Definition pfx_hex : string := "0x"%string.
+Definition pfx_b64 : string := "base64:"%string.
+
+(** the YAML values that denote register [r]:
+    - the integer itself (a plain scalar yaml.v3 resolved as a number);
+    - "0x" + any spelling of its hexadecimal digits, with any number of leading zeros
+      (the key: the hexadecimal text of its 32 bytes, no padding);
+    - "base64:" + std base64 of the bytes ValueBytes renders. *)
+Inductive denotes (r : reg) : yval -> Prop :=
+| D_int : fst r <> key_id -> denotes r (YInt (snd r))
+| D_hex k s' : fst r <> key_id -> respelled (to_hex (snd r)) s' ->
+    denotes r (YStr (pfx_hex ++ zeros k ++ s'))
+| D_hex_key s' : fst r = key_id -> respelled (bytes_to_hex (le_bytes 32 (snd r))) s' ->
+    denotes r (YStr (pfx_hex ++ s'))
+| D_b64 b : value_bytes r = ROk b -> denotes r (YStr (pfx_b64 ++ b64_enc b)).
+
+Lemma drop_hex_hex t : drop_prefix "0x" (pfx_hex ++ t) = Some t.
+Proof. reflexivity. Qed.
+Lemma drop_hex_b64 t : drop_prefix "0x" (pfx_b64 ++ t) = None.
+Proof. reflexivity. Qed.
+Lemma drop_b64_b64 t : drop_prefix "base64:" (pfx_b64 ++ t) = Some t.
+Proof. reflexivity. Qed.
+
+Lemma new_reg_own r : valid r -> new (fst r) (VReg r) = ROk r.
+Proof.
+  destruct r as [id x]. intros [i [Hl Hx]]. cbn [fst snd] in *.
+  unfold new. cbn [fst snd]. rewrite Hl.
+  destruct (String.eqb id key_id); [reflexivity|].
+  rewrite N.mod_small by exact Hx. reflexivity.
+Qed.
+
+Lemma entry_forms r v : valid r -> denotes r v -> yaml_entry (fst r) v = ROk r.
+Proof.
+  intros V D. pose proof V as V'. destruct r as [id x]. destruct V' as [i [Hl Hx]]. cbn [fst snd] in *.
+  destruct (lookup_ok _ _ Hl) as [Hid [Hps [Hbits Hkey]]].
+  unfold yaml_entry.
+  destruct D as [Hk|k s' Hk R|s' Hk R|b Hb]; cbn [fst snd] in *.
+  - apply String.eqb_neq in Hk. cbn [value_unpack bind]. unfold new. rewrite Hl, Hk.
+    rewrite N.mod_small by exact Hx. reflexivity.
+  - apply String.eqb_neq in Hk. cbn [value_unpack]. unfold value_unpack_string.
+    rewrite drop_hex_hex. unfold value_from_hex. rewrite Hl, Hk.
+    rewrite (hex_any_spelling _ x k s'); [|
+      eapply N.lt_le_trans; [exact Hx|apply N.pow_le_mono_r; [discriminate|lia]] | exact R].
+    cbn [bind]. unfold new. rewrite Hl, Hk. rewrite N.mod_small by exact Hx. reflexivity.
+  - destruct (Hkey Hk) as [Hser Hb]. pose proof Hk as Hk'. apply String.eqb_eq in Hk'.
+    cbn [value_unpack]. unfold value_unpack_string.
+    rewrite drop_hex_hex. unfold value_from_hex. rewrite Hl, Hk'.
+    rewrite (proj1 (hex_to_bytes_respelled _) _ R).
+    rewrite hex_bytes_roundtrip by apply le_bytes_range.
+    cbn [bind]. unfold new. rewrite Hl, Hk'. rewrite le_bytes_length, Nat.eqb_refl.
+    rewrite le_roundtrip; [reflexivity|]. rewrite pow256_32, <- Hb. exact Hx.
+  - cbn [value_unpack]. unfold value_unpack_string.
+    rewrite drop_hex_b64, drop_b64_b64. unfold value_from_base64.
+    destruct (bytes_roundtrip (id, x) V) as [b' [H1 H2]]. cbn [fst] in H2.
+    rewrite Hb in H1. injection H1 as <-.
+    rewrite b64_roundtrip.
+    + rewrite H2. cbn [bind]. apply (new_reg_own (id, x) V).
+    + unfold value_bytes in Hb. cbn [fst snd] in Hb. rewrite Hl in Hb. injection Hb as <-.
+      apply le_bytes_range.
+Qed.
+
+(** the forms are all there: for every valid register each constructor applies *)
+Lemma denotes_b64_exists r : valid r -> exists b, value_bytes r = ROk b /\ denotes r (YStr (pfx_b64 ++ b64_enc b)).
+Proof.
+  intro V. destruct (bytes_roundtrip r V) as [b [H _]]. exists b. split; [exact H|]. constructor. exact H.
+Qed.
+
+(** * 11. plain scalars: what yaml.v3 makes of a hexadecimal text *)
+
+Definition pfx_of (upper_x : bool) : string := if upper_x then "0X"%string else "0x"%string.
+
+Lemma hex_prefixed_pfx u t : hex_prefixed (pfx_of u ++ t) = Some t.
+Proof. destruct u; reflexivity. Qed.
+
+Lemma is_empty_false s : s <> EmptyString -> is_empty s = false.
+Proof. destruct s; [congruence|reflexivity]. Qed.
+
+(** a number in any spelling, "0x" or "0X": an integer below 2^64, the text itself from there on *)
+Lemma plain_hex_scalar u x k s' : respelled (to_hex x) s' ->
+  yaml_plain (pfx_of u ++ zeros k ++ s') =
+  Some (if x <? 2 ^ 64 then YInt x else YStr (pfx_of u ++ zeros k ++ s')).
+Proof.
+  intro R. unfold yaml_plain. rewrite hex_prefixed_pfx.
+  rewrite all_alnum_zeros, (all_alnum_respelled _ _ R), all_alnum_to_hex.
+  rewrite of_hex_zeros, N.mul_0_r, (of_hex_respelled _ _ R), of_hex_to_hex.
+  rewrite is_empty_false; [reflexivity|].
+  apply append_nonempty. eapply respelled_nonempty; [exact R|apply to_hex_nonempty].
+Qed.
+
+(** the hexadecimal text of a non-empty byte string: the same rule on its big-endian value *)
+Lemma plain_hex_bytes_scalar u b s' : Forall (fun x => x < 256) b -> b <> [] ->
+  respelled (bytes_to_hex b) s' ->
+  yaml_plain (pfx_of u ++ s') =
+  Some (if be_value b <? 2 ^ 64 then YInt (be_value b) else YStr (pfx_of u ++ s')).
+Proof.
+  intros Hb Hne R. unfold yaml_plain. rewrite hex_prefixed_pfx.
+  rewrite (all_alnum_respelled _ _ R), all_alnum_bytes_to_hex by exact Hb.
+  rewrite (of_hex_respelled _ _ R), of_hex_bytes_to_hex by exact Hb. rewrite N.mul_0_r, N.add_0_l.
+  rewrite is_empty_false; [reflexivity|].
+  eapply respelled_nonempty; [exact R|]. destruct b; [congruence|discriminate].
+Qed.
+
+(** * 12. whole documents *)
+
+Lemma has_dup_nodup l : NoDup l -> has_dup l = false.
+Proof.
+  induction 1 as [|a t Hn _ IH]; [reflexivity|]. cbn [has_dup]. rewrite IH, orb_false_r.
+  destruct (existsb (String.eqb a) t) eqn:E; [|reflexivity].
+  apply existsb_exists in E. destruct E as [y [Hy He]]. apply String.eqb_eq in He. subst. contradiction.
+Qed.
+
+(** a document whose entries denote the registers of a collection parses to that collection, sorted *)
+Lemma yaml_doc_forms regs es :
+  Forall valid regs -> NoDup (ids regs) ->
+  Forall2 (fun r e => fst e = fst r /\ denotes r (snd e)) regs es ->
+  yaml_doc es = ROk (sort_regs regs).
+Proof.
+  intros V N F. unfold yaml_doc.
+  assert (Hids : map fst es = ids regs).
+  { clear V N. induction F as [|r e regs es [He _] _ IH]; [reflexivity|]. cbn [map ids]. rewrite He. f_equal. exact IH. }
+  rewrite Hids, has_dup_nodup by exact N.
+  assert (Hm : mapM (fun e => yaml_entry (fst e) (snd e)) es = ROk regs).
+  { clear N Hids. induction F as [|r e regs es [He Hd] _ IH]; [reflexivity|].
+    inversion V as [|? ? Vr Vt]; subst. cbn [mapM]. rewrite He, (entry_forms r _ Vr Hd). cbn [bind].
+    rewrite (IH Vt). reflexivity. }
+  rewrite Hm. reflexivity.
+Qed.
+
+(** * 13. the destination is replaced *)
+
+Lemma unmarshal_replaces dst d l : parse_doc d = Some (ROk l) -> unmarshal dst d = Some (l, true).
+Proof. intro H. unfold unmarshal. rewrite H. reflexivity. Qed.
+
+Lemma unmarshal_error_keeps dst d : parse_doc d = Some RErr -> unmarshal dst d = Some (dst, false).
+Proof. intro H. unfold unmarshal. rewrite H. reflexivity. Qed.
+
+(** the outcome of a call depends on the document only *)
+Lemma unmarshal_independent dst1 dst2 d l ok :
+  unmarshal dst1 d = Some (l, ok) -> ok = true -> unmarshal dst2 d = Some (l, true).
+Proof.
+  unfold unmarshal. destruct (parse_doc d) as [[l'| |]|]; cbn [assign]; intros H E; try congruence.
+  all: injection H as _ H; congruence.
+Qed.
+
+(** after any number of earlier calls, successful or not, a successful call leaves exactly
+    its own collection *)
+Lemma unmarshal_seq_last docs : forall dst d l,
+  (forall d', In d' docs -> parse_doc d' <> None) -> parse_doc d = Some (ROk l) ->
+  exists pre, unmarshal_seq dst (docs ++ [d]) = Some (pre ++ [(l, true)]) /\ List.length pre = List.length docs.
+Proof.
+  induction docs as [|d0 docs IH]; intros dst d l Hall Hd.
+  - exists []. cbn [app unmarshal_seq]. rewrite (unmarshal_replaces _ _ _ Hd). split; reflexivity.
+  - assert (H0 : parse_doc d0 <> None) by (apply Hall; left; reflexivity).
+    cbn [app unmarshal_seq]. unfold unmarshal at 1.
+    destruct (parse_doc d0) as [p|]; [|congruence].
+    destruct (assign dst p) as [dst' ok] eqn:Ea.
+    destruct (IH dst' d l) as [pre [Hs Hl]]; [intros d' Hin; apply Hall; right; exact Hin|exact Hd|].
+    rewrite Hs. exists ((dst', ok) :: pre). split; [reflexivity|]. cbn [List.length]. rewrite Hl. reflexivity.
+Qed.
+
+(** legacy JSON: what Marshal writes for a valid collection parses back to it, whatever the
+    destination held *)
+Lemma json_entry_ok r : valid r ->
+  exists b, value_bytes r = ROk b /\
+            bind (value_from_bytes (fst r) b) (fun r' => new (fst r) (VReg r')) = ROk r.
+Proof.
+  intro V. destruct (bytes_roundtrip r V) as [b [H1 H2]]. exists b. split; [exact H1|].
+  rewrite H2. cbn [bind]. apply new_reg_own. exact V.
+Qed.
+
+Lemma json_marshal_doc regs : Forall valid regs ->
+  exists e, json_marshal regs = ROk e /\ json_doc e = ROk regs.
+Proof.
+  induction 1 as [|r t Vr _ [e [He Hd]]].
+  - exists []. split; reflexivity.
+  - destruct (json_entry_ok r Vr) as [b [Hb Hn]].
+    exists ((fst r, b) :: e). unfold json_marshal, json_doc in *. cbn [mapM].
+    rewrite Hb. cbn [bind]. rewrite He. cbn [bind fst snd]. split; [reflexivity|].
+    rewrite Hn. cbn [bind]. rewrite Hd. reflexivity.
+Qed.
+
+Lemma unmarshal_json_marshalled dst regs : Forall valid regs ->
+  exists e, json_marshal regs = ROk e /\ unmarshal dst (DJson e) = Some (regs, true).
+Proof.
+  intro V. destruct (json_marshal_doc regs V) as [e [He Hd]]. exists e. split; [exact He|].
+  apply unmarshal_replaces. cbn [parse_doc]. rewrite Hd. reflexivity.
+Qed.
+
+(** YAML: what MarshalYAML writes, read back through the scalar resolution of yaml.v3, is
+    exactly [yaml_roundtrip] (sections 6 and 7 speak about it) *)
+Lemma yaml_written_entry r : valid r ->
+  exists h, yaml_value r = ROk h /\
+  exists v, yaml_scalar false (String "0" (String "x" h)) = Some v /\ yaml_entry (fst r) v = yaml_elem r.
+Proof.
+  intro V. pose proof V as V'. destruct r as [id x]. destruct V' as [i [Hl Hx]]. cbn [fst snd] in *.
+  destruct (lookup_ok _ _ Hl) as [Hid [Hps [Hbits Hkey]]].
+  unfold yaml_value. cbn [fst snd]. rewrite Hl.
+  destruct (String.eqb_spec id key_id) as [Hk|Hk].
+  - eexists. split; [reflexivity|]. cbn [yaml_scalar].
+    assert (Hne : le_bytes 32 x <> []) by (cbn [le_bytes]; discriminate).
+    pose proof (plain_hex_bytes_scalar false (le_bytes 32 x) _ (le_bytes_range 32 x) Hne (respelled_refl _)) as P.
+    change (pfx_of false ++ bytes_to_hex (le_bytes 32 x))%string
+      with (String "0" (String "x" (bytes_to_hex (le_bytes 32 x)))) in P.
+    rewrite P. eexists. split; [reflexivity|].
+    rewrite (yaml_elem_key (id, x) V Hk). cbn [snd].
+    destruct (be_value (le_bytes 32 x) <? 2 ^ 64) eqn:E.
+    + unfold yaml_entry. cbn [value_unpack bind]. unfold new. rewrite Hl.
+      apply String.eqb_eq in Hk. rewrite Hk. reflexivity.
+    + apply (entry_forms (id, x) _ V). apply (D_hex_key (id, x) _ Hk). apply respelled_refl.
+  - eexists. split; [reflexivity|]. cbn [yaml_scalar].
+    pose proof (plain_hex_scalar false x 0 _ (respelled_refl (to_hex x))) as P.
+    change (pfx_of false ++ zeros 0 ++ to_hex x)%string with (String "0" (String "x" (to_hex x))) in P.
+    rewrite P. eexists. split; [reflexivity|].
+    rewrite (yaml_elem_nonkey (id, x) V Hk).
+    destruct (x <? 2 ^ 64).
+    + apply (entry_forms (id, x) _ V). constructor. exact Hk.
+    + apply (entry_forms (id, x) _ V). apply (D_hex (id, x) 0 _ Hk). apply respelled_refl.
+Qed.
+
+Lemma yaml_marshal_entries l : Forall valid l ->
+  exists e, mapM (fun r => bind (yaml_value r) (fun h => ROk (fst r, (false, String "0" (String "x" h))))) l = ROk e /\
+  map fst e = ids l /\
+  exists e', resolve_entries e = Some e' /\ map fst e' = ids l /\
+             mapM (fun x => yaml_entry (fst x) (snd x)) e' = mapM yaml_elem l.
+Proof.
+  induction 1 as [|r t Vr _ [e [He [Hi [e' [Hr [Hi' Hm]]]]]]].
+  - exists []. split; [reflexivity|]. split; [reflexivity|]. exists []. repeat split; reflexivity.
+  - destruct (yaml_written_entry r Vr) as [h [Hh [v [Hv Hy]]]].
+    exists ((fst r, (false, String "0" (String "x" h))) :: e). cbn [mapM]. rewrite Hh. cbn [bind]. rewrite He. cbn [bind].
+    split; [reflexivity|]. split; [cbn [map ids fst]; f_equal; exact Hi|].
+    exists ((fst r, v) :: e'). cbn [resolve_entries]. rewrite Hv, Hr.
+    split; [reflexivity|]. split; [cbn [map ids fst]; f_equal; exact Hi'|].
+    cbn [mapM fst snd]. rewrite Hy, Hm. reflexivity.
+Qed.
+
+Lemma yaml_marshal_parse regs : Forall valid regs -> NoDup (ids regs) ->
+  exists e, yaml_marshal regs = ROk e /\ parse_doc (DYaml e) = Some (yaml_roundtrip regs).
+Proof.
+  intros V N. unfold yaml_marshal. rewrite dedup_last_nodup by exact N.
+  destruct (yaml_marshal_entries regs V) as [e [He [Hi [e' [Hr [Hi' Hm]]]]]].
+  exists e. split; [exact He|]. cbn [parse_doc]. rewrite Hr. f_equal.
+  unfold yaml_doc. rewrite Hi', has_dup_nodup by exact N. rewrite Hm.
+  rewrite yaml_roundtrip_unfold, dedup_last_nodup by exact N. reflexivity.
+Qed.
+
+Lemma unmarshal_yaml_marshalled_partial dst regs : Forall valid regs -> NoDup (ids regs) ->
+  (forall r, In r regs -> fst r = key_id -> 2 ^ 64 <= be_value (le_bytes 32 (snd r))) ->
+  exists e, yaml_marshal regs = ROk e /\ unmarshal dst (DYaml e) = Some (sort_regs regs, true).
+Proof.
+  intros V N K. destruct (yaml_marshal_parse regs V N) as [e [He Hp]]. exists e. split; [exact He|].
+  apply unmarshal_replaces. rewrite Hp, (yaml_roundtrip_partial regs V N K). reflexivity.
+Qed.
+
+(** * Examples for sections 8-13 *)
+Open Scope string_scope.
+Lemma ex_forms :
+  b64_enc [0x10; 0x70; 0x85; 0x4f; 0; 0; 0; 0] = "EHCFTwAAAAA=" /\
+  yaml_entry "ACM_STATUS" (YStr "base64:EHCFTwAAAAA=") = ROk ("ACM_STATUS", 0x4f857010) /\
+  (* lower-casing the text (what a case-insensitive prefix test would do) denotes another value *)
+  yaml_entry "ACM_STATUS" (YStr "base64:ehcftwaaaaa=") = ROk ("ACM_STATUS", 0xb71f177a) /\
+  respelled "4f857010" "4F857010" /\
+  yaml_scalar false "0x4F857010" = Some (YInt 0x4f857010) /\
+  yaml_entry "ACM_STATUS" (YStr "0x004F857010") = ROk ("ACM_STATUS", 0x4f857010) /\
+  yaml_entry "ACM_STATUS" (YStr "0X4f857010") = RErr /\
+  yaml_entry "TXT.ESTS" (YStr "base64:/w==") = ROk ("TXT.ESTS", 0xff).
+Proof.
+  repeat split; try (vm_compute; reflexivity).
+  change "4F857010" with (String "4" (String (hex_upper "f") (String "8" (String "5" (String "7" (String "0" (String "1" (String "0" EmptyString)))))))).
+  repeat constructor.
+Qed.
+
+Lemma ex_seq :
+  unmarshal_seq [("TXT.ESTS", 7)]
+    [DJson [("TXT.STS", [1; 2; 3; 4; 5; 6; 7; 8])];
+     DYaml [("BOGUS", (false, "0x1"))];
+     DYaml [("TXT.ESTS", (true, "base64:/w==")); ("ACM_STATUS", (false, "0x12"))]]
+  = Some [([("TXT.STS", 0x0807060504030201)], true);
+          ([("TXT.STS", 0x0807060504030201)], false);
+          ([("TXT.ESTS", 0xff); ("ACM_STATUS", 0x12)], true)].
+Proof. vm_compute. reflexivity. Qed.
+Close Scope string_scope.
+
